@@ -78,6 +78,23 @@ Print Assumptions C01_reject_before_any_effect.
 Print Assumptions C01_entry_points_agree.
 Print Assumptions C01_reject_before_any_effect_with_directory.
 
+(* acceptance of one level is EQUIVALENT to the success of every stage in sequence (layout signatures for every
+   supplied key, layout payload, expiry, parameter substitution, certificates, link loading, thresholds, sublayout
+   resolution, command alignment, agreement of counted links, step rules, inspections, inspection rules, summary):
+   nothing else can make a verification succeed or fail.  Together with the completeness theorems of the stages
+   (C02_complete, C05_reduce_ok_iff_all_equal, C03_model_eq_spec, C09 insp_run) this is the library half of
+   "an honest supply chain is accepted" (C20). *)
+Theorem C01_accept_iff_all_stages :
+  forall World vsig expiry_ok subst certs_ok load_all verify_thresholds verify_rules run_insp retval_zero pbytes zero_key
+         fuel w path d layout_env keys step_name params inter s w' tr,
+    verify World vsig expiry_ok subst certs_ok load_all verify_thresholds verify_rules run_insp retval_zero pbytes zero_key
+           (S fuel) w path d layout_env keys step_name params inter = (Ok s, w', tr) <->
+    stages World vsig expiry_ok subst certs_ok load_all verify_thresholds verify_rules run_insp retval_zero pbytes zero_key
+           (verify World vsig expiry_ok subst certs_ok load_all verify_thresholds verify_rules run_insp retval_zero pbytes zero_key fuel)
+           w path d layout_env keys step_name params inter s w' tr.
+Proof. exact verify_ok_iff_stages. Qed.
+Print Assumptions C01_accept_iff_all_stages.
+
 (* ---- with the model of VerifySignature (model/Sign.v, property C04) plugged in ----
    acceptance needs, for EVERY supplied key, a stored signature - selected as the wrapper prescribes (legacy:
    the first one carrying the key's id; DSSE: one whose key id is empty or the key's) - that decodes to a raw
